@@ -62,11 +62,11 @@ theorem cell_same_as_parent (p k : Scope) (rest : List Scope) (v : Nat)
 
 theorem lget_nil (n : Nat) : lget [] n = none := rfl
 
-theorem private_fresh (s : Scope) (chain : List Scope) (v : Nat) (st : Store) (n : Nat)
-    (h : cellOf s chain v = .priv n) : readVar ⟨s, chain, []⟩ st v = none := by
+theorem private_fresh (s : Scope) (chain : List Scope) (act : Nat) (v : Nat) (st : State) (n : Nat)
+    (h : cellOf s chain v = .priv n) : readVar ⟨s, chain, act, []⟩ st v = none := by
   simp [readVar, h, lget]
 
-theorem sget_sput (st : Store) (k : Nat × Nat) (x : Val) : sget (sput st k x) k = some x := by
+theorem sget_sput (st : Store) (k : Nat × Nat × Nat) (x : Val) : sget (sput st k x) k = some x := by
   induction st with
   | nil => simp [sput, sget]
   | cons hd tl ih =>
@@ -76,15 +76,48 @@ theorem sget_sput (st : Store) (k : Nat × Nat) (x : Val) : sget (sput st k x) k
     · simp [h, sget]
     · simp [h, sget, ih]
 
-theorem shared_write_read (s1 s2 : Scope) (c1 c2 : List Scope) (l1 l2 : Locals) (st : Store)
-    (v w : Nat) (x : Val) (p n : Nat)
+theorem sget_sput_ne (st : Store) (k k2 : Nat × Nat × Nat) (x : Val) (hne : k ≠ k2) :
+    sget (sput st k x) k2 = sget st k2 := by
+  induction st with
+  | nil =>
+    simp only [sput, sget]
+    simp [hne]
+  | cons hd tl ih =>
+    obtain ⟨k', v'⟩ := hd
+    simp only [sput]
+    by_cases h : k' = k
+    · subst h
+      simp [sget, hne]
+    · simp only [h, if_false, sget]
+      by_cases h2 : k' = k2
+      · simp [h2]
+      · simp [h2, ih]
+
+theorem shared_write_read (s1 s2 : Scope) (c1 c2 : List Scope) (act : Nat) (l1 l2 : Locals)
+    (st : State) (v w : Nat) (x : Val) (p n : Nat)
     (h1 : cellOf s1 c1 v = .shared p n) (h2 : cellOf s2 c2 w = .shared p n) :
-    readVar ⟨s2, c2, l2⟩ (writeVar ⟨s1, c1, l1⟩ st v x).2 w = some x := by
+    readVar ⟨s2, c2, act, l2⟩ (writeVar ⟨s1, c1, act, l1⟩ st v x).2 w = some x := by
   simp [readVar, writeVar, h1, h2, sget_sput]
 
-theorem private_write_keeps_store (s : Scope) (c : List Scope) (l : Locals) (st : Store)
-    (v : Nat) (x : Val) (n : Nat) (h : cellOf s c v = .priv n) :
-    (writeVar ⟨s, c, l⟩ st v x).2 = st := by
+theorem other_call_unaffected (s1 s2 : Scope) (c1 c2 : List Scope) (a1 a2 : Nat) (l1 l2 : Locals)
+    (st : State) (v w : Nat) (x : Val) (hne : a1 ≠ a2) :
+    readVar ⟨s2, c2, a2, l2⟩ (writeVar ⟨s1, c1, a1, l1⟩ st v x).2 w =
+      readVar ⟨s2, c2, a2, l2⟩ st w := by
+  simp only [readVar, writeVar]
+  cases h1 : cellOf s1 c1 v with
+  | priv n => rfl
+  | shared p n =>
+    cases h2 : cellOf s2 c2 w with
+    | priv m => rfl
+    | shared q m =>
+      simp only
+      apply sget_sput_ne
+      intro h
+      exact hne (by cases h; rfl)
+
+theorem private_write_keeps_store (s : Scope) (c : List Scope) (act : Nat) (l : Locals)
+    (st : State) (v : Nat) (x : Val) (n : Nat) (h : cellOf s c v = .priv n) :
+    (writeVar ⟨s, c, act, l⟩ st v x).2 = st := by
   simp [writeVar, h]
 
 theorem function_block_binds_itself (n : Nat) (chain : List Scope) (k : Scope)
@@ -92,15 +125,23 @@ theorem function_block_binds_itself (n : Nat) (chain : List Scope) (k : Scope)
     ∀ v ∈ namesD k, (bindingGo chain k v).id = k.id := by
   intro v hv
   simp only [isClosure, Bool.or_eq_false_iff, List.any_eq_false] at h
-  have := h.1 v hv
+  have := h.1.2 v hv
   simpa using this
 
 theorem function_block_kids (n : Nat) (chain : List Scope) (k : Scope)
     (h : isClosure (n + 1) chain k = false) :
-    ∀ c ∈ kids k, isClosure n (k :: chain) c = false := by
-  intro c hc
+    hasRet k = false ∧ ∀ c ∈ kids k, isClosure n (k :: chain) c = false := by
   simp only [isClosure, Bool.or_eq_false_iff, List.any_eq_false] at h
+  refine ⟨h.1.1, ?_⟩
+  intro c hc
   have := h.2 c hc
   simpa using this
+
+/-- the catch variable of a try counts as a use of the name in that scope -/
+theorem catch_var_is_use (s : Scope) (x w : Nat) (e : Expr) (h : Stmt.tryc x e w ∈ s.body) :
+    usesD s w = true := by
+  simp only [usesD, Bool.or_eq_true, List.any_eq_true]
+  left; right
+  exact ⟨_, h, by simp [stmtUses]⟩
 
 end Gsu.LangBlocks
